@@ -116,6 +116,7 @@ pub fn run(ctx: &Ctx) -> Report {
      display: values around every unit boundary (1024^i*k +-1, rounding ties x.xx5), random u64 (log-uniform); \
      non-trivial = has a unit or a fraction (parse) / value >= 1024 (display); distinct by input text/value",
   );
+  report.rule.push_str("; digits after or inside the unit, decimal commas, no integer part, white space, letters outside ASCII (must reject unless lower-casing gives a unit); 999..1023 of every unit for printing; the size used through `create --piece-length TEXT` with content from a file and from standard input");
   report.correspondences.push("C16.parse: <Bytes as FromStr> = Imdlv.ByteSize.parseBytes".into());
   report.correspondences.push("C16.display: <Bytes as Display> = Imdlv.ByteSize.displayBytes".into());
   let mut model = Model::spawn(&ctx.vmodel);
